@@ -103,6 +103,8 @@ int g_nmtx = 0;
 void *C[128];
 int g_ncond = 0;
 uint64_t (*g_digest)(void) = nullptr;
+int (*g_chooser)(int, const int *, int, void *) = nullptr;
+void *g_chooser_arg = nullptr;
 __thread int tls_tid = -1;
 __thread int tls_simpid = 0;
 
@@ -189,6 +191,10 @@ void schedule_from(int me) {
       snprintf(msg, sizeof msg, "forced thread t%d is not enabled at point %d", g_tids[np], np);
       finish(VS_DIVERGED, msg);
     }
+  }
+  if (g_chooser && np >= g_nchoices && np >= g_ntids) {
+    idx = g_chooser(me, list, n, g_chooser_arg);
+    if (idx < 0 || idx >= n) finish(VS_DIVERGED, "scheduling oracle found no enabled thread for the next expected step");
   }
   if (idx < 0 || idx >= n) finish(VS_DIVERGED, "forced choice index not available at this point");
   int chosen = list[idx];
@@ -310,6 +316,8 @@ void vs_point_cond(int op, int obj, int (*enabled_fn)(void *), void *arg) {
   if (controlled()) point(op, obj, nullptr, enabled_fn, arg);
 }
 void vs_set_digest_fn(uint64_t (*fn)(void)) { g_digest = fn; }
+void vs_set_chooser(int (*fn)(int, const int *, int, void *), void *arg) { g_chooser = fn; g_chooser_arg = arg; }
+int vs_thread_simpid(int tid) { return (tid >= 0 && tid < g_nthr) ? T[tid].simpid : 0; }
 
 void vs_log(int kind, int64_t a, int64_t b) {
   if (!g_shm) return;
